@@ -1,0 +1,38 @@
+package localcachedmap
+
+import (
+	"strings"
+	"testing"
+
+	"github.com/stretchr/testify/assert"
+)
+
+func TestLocalCachedMapKeyBoundaries(t *testing.T) {
+	created := make([]string, 0)
+	gm := NewGlobalMap(
+		func(keys []string, onStopped func()) string {
+			onStopped()
+			id := strings.Join(keys, "|")
+			created = append(created, id)
+			return id
+		},
+		func(string) {},
+		func(obj string) string { return "local:" + obj },
+	)
+	lm := gm.MakeLocalMap()
+	noop := func([]string) {}
+
+	// key sets which differ only in where the boundary between fields lies must not share an object
+	assert.Equal(t, "local:ab|c", lm.GetOrCreate([]string{"ab", "c"}, noop))
+	assert.Equal(t, "local:a|bc", lm.GetOrCreate([]string{"a", "bc"}, noop))
+	assert.Equal(t, "local:|x", lm.GetOrCreate([]string{"", "x"}, noop))
+	assert.Equal(t, "local:x|", lm.GetOrCreate([]string{"x", ""}, noop))
+	assert.Equal(t, "local:ab|c", lm.GetOrCreate([]string{"ab", "c"}, noop))
+	assert.Equal(t, []string{"ab|c", "a|bc", "|x", "x|"}, created)
+
+	// a second local map finds the same global objects
+	lm2 := gm.MakeLocalMap()
+	assert.Equal(t, "local:a|bc", lm2.GetOrCreate([]string{"a", "bc"}, noop))
+	assert.Equal(t, 4, len(created))
+	gm.Destroy()
+}
